@@ -6,52 +6,69 @@ From PintV Require Import Common.Bytes Common.Sorting Model.SummarySort Model.Jo
 From PintV Require Import Proofs.C11_order Proofs.C11_perm Proofs.C11_lts.
 Import ListNotations.
 
-Section Jobs.
-  Variable jobs : list job.
+(** Since fix 346020d the sort key holds ALL diagnostics (sorted), so key-equal reports have the same diagnostics; the
+    invariant the older code needed ("the first diagnostic determines the rest", which promql/aggregate with several
+    labels to keep/strip violated) is a theorem. *)
+Lemma key_eq_same_diags (a b : report) :
+  sort_key (norm a) = sort_key (norm b) -> is_same_diags (r_diags b) (r_diags a) = true.
+Proof.
+  intros K. unfold sort_key in K. injection K as _ _ _ _ _ _ _ K _. cbn [norm r_diags] in K.
+  assert (Pa : Permutation (map triple (r_diags a)) (map dkey (fsort (sort_diags (r_diags a)))))
+    by (apply Permutation_map; unfold fsort, sort_diags;
+        eapply Permutation_trans; [apply Permutation_sym, isort_perm|apply Permutation_sym, isort_perm]).
+  assert (Pb : Permutation (map triple (r_diags b)) (map dkey (fsort (sort_diags (r_diags b)))))
+    by (apply Permutation_map; unfold fsort, sort_diags;
+        eapply Permutation_trans; [apply Permutation_sym, isort_perm|apply Permutation_sym, isort_perm]).
+  apply is_same_diags_incl. split.
+  - rewrite <- (map_length triple (r_diags b)), <- (map_length triple (r_diags a)).
+    rewrite (Permutation_length Pa), (Permutation_length Pb), K. reflexivity.
+  - intros t Ht. apply (Permutation_in _ (Permutation_sym Pa)). rewrite K. now apply (Permutation_in _ Pb).
+Qed.
 
-  (** J-loc: a location belongs to one entry.  Two problems (of any two jobs) reported for the same file with the
-      same line range come from entries that agree on symlink target, owner and rule identity.  (True when every
-      check reports inside the lines of its own rule and the rules of a file do not overlap; file-level error
-      entries carry the lines of their own error.) *)
-  Definition J_loc : Prop := forall j1 j2 p1 p2,
-    In j1 jobs -> In j2 jobs -> In p1 (snd j1) -> In p2 (snd j2) ->
-    e_path (fst j1) = e_path (fst j2) -> p_lfirst p1 = p_lfirst p2 -> p_llast p1 = p_llast p2 ->
-    e_target (fst j1) = e_target (fst j2) /\ e_owner (fst j1) = e_owner (fst j2) /\ e_rule (fst j1) = e_rule (fst j2).
+Lemma sorted_diags_nil l : fsort (sort_diags l) = [] -> l = [].
+Proof.
+  intros E. unfold fsort, sort_diags in E.
+  assert (P : Permutation [] l).
+  { rewrite <- E. eapply Permutation_trans; apply isort_perm. }
+  now apply Permutation_nil in P.
+Qed.
 
-  (** Since fix 346020d the sort key holds ALL diagnostics (sorted), so key-equal reports have the same diagnostics
-      and the second invariant the older code needed ("the first diagnostic determines the rest", which
-      promql/aggregate with several labels to keep/strip violated: one job per label, a shared first diagnostic)
-      is a theorem. *)
-  Lemma key_eq_same_diags (a b : report) :
-    sort_key (norm a) = sort_key (norm b) -> is_same_diags (r_diags b) (r_diags a) = true.
+(** Since fix bc86063 the comparator reads, after the diagnostics, Rule.Lines.First, Rule.Lines.Last, Owner and
+    Path.SymlinkTarget.  What [isEqual] reads and the key still does NOT determine (the residue, stated over any stream):
+
+    (R-kind)   [isEqual] calls Rule.IsSame, which compares the kind flags (AlertingRule / RecordingRule nil or not), the
+               parse Error and Lines; only Lines are sort keys.  Residue: two reports of one file whose rules have the same
+               Lines have rules of the same kind and Error (rules of a file do not share their line range).
+    (R-nodiag) cmpDiagnostics answers -1 / 1 as soon as one slice is empty and cmp.Or stops at the first non-zero key, so
+               for reports WITHOUT diagnostics the trailing keys are never read.  Residue: two diagnostic-less reports for the
+               same file, lines and reporter come from entries that agree on target, owner and rule (parse errors are
+               the only diagnostic-less problems: one entry per error location).
+    Both are monitored through H2 on every recorded real stream. *)
+Section Residue.
+  Variable s : list report.
+
+  Definition R_kind : Prop := forall a b, In a s -> In b s ->
+    r_path a = r_path b -> r_rfirst a = r_rfirst b -> r_rlast a = r_rlast b -> r_rule a = r_rule b.
+
+  Definition R_nodiag : Prop := forall a b, In a s -> In b s -> r_diags a = [] -> r_diags b = [] ->
+    r_path a = r_path b -> r_lfirst a = r_lfirst b -> r_llast a = r_llast b -> r_reporter a = r_reporter b ->
+    r_target a = r_target b /\ r_owner a = r_owner b /\ r_rule a = r_rule b.
+
+  Theorem H2_from_residue : R_kind -> R_nodiag -> H2 s.
   Proof.
-    intros K. unfold sort_key in K. injection K as _ _ _ _ _ _ _ K. cbn [norm r_diags] in K.
-    assert (Pa : Permutation (map triple (r_diags a)) (map dkey (fsort (sort_diags (r_diags a)))))
-      by (apply Permutation_map; unfold fsort, sort_diags;
-          eapply Permutation_trans; [apply Permutation_sym, isort_perm|apply Permutation_sym, isort_perm]).
-    assert (Pb : Permutation (map triple (r_diags b)) (map dkey (fsort (sort_diags (r_diags b)))))
-      by (apply Permutation_map; unfold fsort, sort_diags;
-          eapply Permutation_trans; [apply Permutation_sym, isort_perm|apply Permutation_sym, isort_perm]).
-    apply is_same_diags_incl. split.
-    - rewrite <- (map_length triple (r_diags b)), <- (map_length triple (r_diags a)).
-      rewrite (Permutation_length Pa), (Permutation_length Pb), K. reflexivity.
-    - intros t Ht. apply (Permutation_in _ (Permutation_sym Pa)). rewrite K. now apply (Permutation_in _ Pb).
-  Qed.
-
-  Theorem H2_from_job_invariants : J_loc -> H2 (sequential job report run_job jobs).
-  Proof.
-    intros L a b Ha Hb K. pose proof (key_eq_same_diags a b K) as SD. unfold sequential in Ha, Hb.
-    apply in_flat_map in Ha, Hb. destruct Ha as (j1 & Hj1 & Ha), Hb as (j2 & Hj2 & Hb).
-    unfold run_job in Ha, Hb. apply in_map_iff in Ha, Hb.
-    destruct Ha as (p1 & <- & Hp1), Hb as (p2 & <- & Hp2).
-    unfold sort_key in K. cbn [norm r_path r_lfirst r_llast r_sev r_reporter r_summary r_details mk_report] in K.
-    injection K as K1 K2 K3 K4 K5 K6 K7 _.
-    destruct (L j1 j2 p1 p2 Hj1 Hj2 Hp1 Hp2 K1 K2 K3) as (T & O & Ru).
-    unfold is_equal. cbn [mk_report r_target r_path r_owner r_lfirst r_llast r_details r_rule r_reporter r_summary r_diags r_sev] in *.
-    rewrite T, K1, O, K2, K3, K7, Ru, K5, K6, K4, SD.
+    intros RK RN a b Ha Hb K. pose proof (key_eq_same_diags a b K) as SD.
+    unfold sort_key in K. cbn [norm r_path r_lfirst r_llast r_sev r_reporter r_summary r_details] in K.
+    injection K as K1 K2 K3 K4 K5 K6 K7 _ K9.
+    assert (X : r_target a = r_target b /\ r_owner a = r_owner b /\ r_rule a = r_rule b).
+    { unfold tkey in K9. cbn [norm r_diags] in K9.
+      destruct (fsort (sort_diags (r_diags a))) eqn:Ea, (fsort (sort_diags (r_diags b))) eqn:Eb; cbn in K9; try discriminate.
+      - apply sorted_diags_nil in Ea, Eb. now apply RN.
+      - injection K9 as T1 T2 T3 T4. repeat split; auto; try (now apply RK). }
+    destruct X as (T & O & Ru).
+    unfold is_equal. rewrite T, K1, O, K2, K3, K7, Ru, K5, K6, K4, SD.
     now rewrite !String.eqb_refl, !Z.eqb_refl, N.eqb_refl.
   Qed.
-End Jobs.
+End Residue.
 
 (** Headline for the real pipeline: two complete runs of checkRules over the same jobs — any numbers of workers,
     any channel capacities >= 1, any schedules — feed Summary.Report with streams that [process] maps to the same
